@@ -182,3 +182,16 @@ Theorem C07_source_build : forall (O : oracles) (B : backend) (a : build_args),
   same_outcome (gen_build O B a) (build O B a).
 Proof. exact gen_build_ok. Qed.
 Print Assumptions C07_source_build.
+
+(** ... and the query operations, which build their result through from_parts_uncached with the
+    other four stored strings of the receiver and nothing else carried over (statements and
+    comment: the C12_source theorems) *)
+From Yarl Require Import Proofs.GenQueryProofs.
+Theorem C07_source_query_operations : forall (B : backend) (u : url) (q : qarg) (names : list str),
+  gen_with_query B u q = with_query B u q /\ gen_extend_query B u q = extend_query B u q
+  /\ gen_update_query B u q = update_query B u q /\ gen_without_query_params B u names = without_query_params B u names.
+Proof.
+  intros B u q names. split; [apply gen_with_query_ok|]. split; [apply gen_extend_query_ok|].
+  split; [apply gen_update_query_ok|apply gen_without_query_params_ok].
+Qed.
+Print Assumptions C07_source_query_operations.
